@@ -729,6 +729,15 @@ fn run_hist(cx: &mut Cx, rep: &mut Report, h: &Hist, origin: &str) {
                             // why? (features of the input only)
                             let target_of_add = add_log.iter().find(|(i, _, _)| i == ai).map(|(_, k, _)| k.clone()).unwrap_or_default();
                             let later_variant = add_log.iter().any(|(i, k, w)| i > ai && *k == target_of_add && w != t && real_id(w) == real_id(t));
+                            // ... or an add for ANOTHER file whose dictionary is the same file on disk (F20)
+                            let phys = |k: &String| -> Option<PathBuf> {
+                                if k == "user" {
+                                    Some(PathBuf::from(&user))
+                                } else {
+                                    (0..urls.len()).find(|i| urls[*i].file_key == *k).and_then(|i| dict_path(&Scope::File(i)))
+                                }
+                            };
+                            let cross_variant = add_log.iter().any(|(i, k, w)| i > ai && *k != target_of_add && phys(k) == phys(&target_of_add) && w != t && real_id(w) == real_id(t));
                             let cur = FstDictionary::curated();
                             let tc: Vec<char> = t.chars().collect();
                             let other_dialect = cur.get_word_metadata(&tc).map(|m| !m.dialect.is_none_or(|d| d == Dialect::American)).unwrap_or(false);
@@ -736,6 +745,8 @@ fn run_hist(cx: &mut Cx, rep: &mut Report, h: &Hist, origin: &str) {
                                 "added-word-reported:apostrophe"
                             } else if later_variant {
                                 "added-word-reported:case-collision"
+                            } else if cross_variant {
+                                "file-scope-leak"
                             } else if other_dialect {
                                 "added-word-reported:dialect"
                             } else {
